@@ -1,14 +1,13 @@
 SPECIFICATION Spec
 CONSTANTS
   Deviations <- AllDevs
-  MaxNodes = 4
-  Worlds <- QuickWorlds
-  Rich = TRUE
+  MaxNodes = 2
+  Worlds <- AnonWorld
+  Rich = FALSE
   NumIter = 2
   EarlyStop = TRUE
-  Sim = TRUE
-  Fine = TRUE
-  Mutant = "none"
+  Sim = FALSE
+  Fine = FALSE
+  Mutant = "same_shape_unk"
 INVARIANT PropertyHolds
-INVARIANT Emit
 CHECK_DEADLOCK FALSE
